@@ -79,6 +79,7 @@ type Contract struct {
 	Opaque []string
 	PerReturn bool
 	NoFrame   bool
+	TermProps map[string]bool
 	LoopNoFrame map[int]bool
 	ExitGhost []*SiteClause
 	Props map[string]bool // property tags mentioned
@@ -335,7 +336,7 @@ func findDefEq(s string) int {
 func parseContract(key string, clauses []string, where string) (*Contract, error) {
 	c := &Contract{Key: key, LoopInv: map[int][]*Clause{}, LoopDecr: map[int][]*Expr{}, LoopMod: map[int][]*Expr{}, Where: where, Props: map[string]bool{}, SafetyProps: map[string]bool{}}
 	// clauses may themselves have been continued: a clause starts with a keyword
-	kw := regexp.MustCompile(`^(requires|ensures|modifies|allocates|pure|trusted|decreases|loop|maypanic|let|safety|formals|results|witness|replay|site|opaque|perreturn|exitghost|noframe)\b`)
+	kw := regexp.MustCompile(`^(requires|ensures|modifies|allocates|pure|trusted|decreases|loop|maypanic|let|safety|formals|results|witness|replay|site|opaque|perreturn|exitghost|noframe|termination)\b`)
 	var merged []string
 	for _, l := range clauses {
 		l = strings.TrimSpace(l)
@@ -404,6 +405,15 @@ func parseContract(key string, clauses []string, where string) (*Contract, error
 			tags, _ := parseTags(rest + " ")
 			for _, t := range tags {
 				c.SafetyProps[t] = true
+			}
+		case "termination":
+			// like safety, but the property owns only the termination obligations (loop variants, recursion measures)
+			tags, _ := parseTags(rest + " ")
+			if c.TermProps == nil {
+				c.TermProps = map[string]bool{}
+			}
+			for _, t := range tags {
+				c.TermProps[t] = true
 			}
 		case "formals":
 			c.Formals = splitTop(rest)
